@@ -4,7 +4,7 @@
    --aoh position|dpos|value, all document pairs without explicit tags
    (finding F1), any YAMLPath.__eq__ in the pop step. *)
 From Coq Require Import List Ascii String ZArith NArith Bool Arith Lia Permutation.
-From YP Require Import Outcome PyStr PyVal Doc Diff C06Spec DiffBase DiffEq DiffKeys DiffSync DiffSym DiffAcct.
+From YP Require Import Outcome PyStr PyVal Doc Diff C06Spec DiffBase DiffEq DiffKeys DiffSync DiffSym DiffAcct DiffKSync DiffCover.
 Import ListNotations.
 Open Scope nat_scope.
 
@@ -139,20 +139,67 @@ Proof.
   apply orb_false_iff in H. destruct H as [H1 H2]. destruct Hx as [<-|Hx]; auto.
 Qed.
 
-(* which comparer _diff_lists runs under a uniform, unkeyed pair of options *)
+(* the loop of _diff_arrays_of_hashes in the identity-key modes *)
+Definition key_fold (rec : rec_t) (d : bool) (path : string) (q : loc) (r0 : node)
+           (a : list entry) (p : spair) : outcome (list entry) :=
+  let '(lidx, lele, ridx, rele) := p in
+  match lidx with
+  | None => Ok (add_entry (path_add_idx path ridx) (q ++ [idx_ref ridx]) rele :: a)
+  | Some li =>
+      match ridx with
+      | None => Ok (del_entry (path_add_idx path lidx) (q ++ [RIdx li]) lele :: a)
+      | Some ri =>
+          if d then rec (path_add_idx path ridx) (q ++ [RIdx ri]) lele rele (Some r0) (PInt (Z.of_nat ri)) a
+          else Ok (cmp_entry (path_add_idx path lidx) (q ++ [RIdx li]) lele rele :: a)
+      end
+  end.
+
+(* which comparer _diff_lists runs under a uniform pair of options *)
 Lemma lists_dispatch : forall path_eq cfg am hm rec path q r lels rels par pref a,
-  uniform cfg am hm -> unkeyed hm = true ->
+  uniform cfg am hm ->
   diff_lists path_eq cfg rec path q r lels rels par pref a =
   match list_mode am hm rels with
-  | Some (LPos d) => zip_go rec d path q r 0 lels rels a
-  | Some LValue => diff_synced path_eq rec path q r lels rels a
-  | None => OutOfFuel
+  | LPos d => zip_go rec d path q r 0 lels rels a
+  | LValue => diff_synced path_eq rec path q r lels rels a
+  | LKey d => foldM (key_fold rec d path q r) (sync_key cfg r lels rels) a
   end.
 Proof.
-  intros path_eq cfg am hm rec path q r lels rels par pref a [Ha Hh] Hk.
+  intros path_eq cfg am hm rec path q r lels rels par pref a [Ha Hh].
   unfold diff_lists, diff_aoh, diff_arrays, list_mode.
   destruct rels as [|[ | | | ] rr]; rewrite ?Hh, ?Ha; simpl; rewrite ?Ha; simpl;
-    destruct am, hm; try discriminate Hk; reflexivity.
+    destruct am, hm; reflexivity.
+Qed.
+
+Lemma in_lefts_inv : forall ps li le, In (li, le) (lefts ps) -> exists ri re, In (Some li, le, ri, re) ps.
+Proof.
+  induction ps as [|p r IH]; intros li le H; [contradiction|].
+  unfold lefts in H. simpl in H. destruct p as [[[l0 x0] r0] y0]. simpl in H.
+  destruct l0 as [n|].
+  - destruct H as [H|H].
+    + inversion H; subst. exists r0, y0. left; reflexivity.
+    + destruct (IH _ _ H) as [ri [re Hin]]. exists ri, re. right; exact Hin.
+  - destruct (IH _ _ H) as [ri [re Hin]]. exists ri, re. right; exact Hin.
+Qed.
+
+Lemma matched_lengths : forall ps, (forall p, In p ps -> matched p = true) ->
+  List.length (lefts ps) = List.length ps /\ List.length (rights ps) = List.length ps.
+Proof.
+  induction ps as [|p r IH]; intros H; [split; reflexivity|].
+  destruct (IH (fun p0 Hp0 => H p0 (or_intror Hp0))) as [I1 I2].
+  pose proof (H p (or_introl eq_refl)) as M. destruct p as [[[[n|] x] [m|]] y]; try discriminate M.
+  unfold lefts, rights in *. simpl. split; congruence.
+Qed.
+
+Lemma in_enumerate {A} : forall (l : list A) x, In x l -> exists n, In (n, x) (enumerate l).
+Proof.
+  intros l x H. apply In_nth_error in H. destruct H as [n Hn]. exists n.
+  pose proof (enumerate_from_in l 0 n x Hn) as E. simpl in E. exact E.
+Qed.
+
+Lemma map_ida_enumerate : forall (idf : node -> pyval) (l : list node),
+  map (ida idf) (enumerate l) = map idf l.
+Proof.
+  intros idf l. unfold ida, enumerate. rewrite <- (map_map snd idf), enumerate_from_map_snd. reflexivity.
 Qed.
 
 Section Iff.
@@ -161,13 +208,31 @@ Section Iff.
   Variable am : arr_opt.
   Variable hm : aoh_opt.
   Hypothesis Hu : uniform cfg am hm.
-  Hypothesis Hk : unkeyed hm = true.
+
+  (* the guard carried through the recursion (trivial for the position / value
+     modes, the well-keyedness guard of finding F4 for the identity-key modes)
+     and what it must provide at each kind of node *)
+  Variable Guard : node -> node -> Prop.
+  Hypothesis G_map : forall i lkvs j rkvs k rv lv,
+    okd (NMap i lkvs) -> okd (NMap j rkvs) -> Guard (NMap i lkvs) (NMap j rkvs) ->
+    In (k, rv) rkvs -> map_get k lkvs = Some lv -> Guard lv rv.
+  Hypothesis G_leaf : forall a b, plain_leaf a = true -> plain_leaf b = true -> Guard a b.
+  Hypothesis G_zip : forall i lels j rels, Guard (NSeq i lels) (NSeq j rels) ->
+    list_mode am hm rels = LPos true -> forall x y, In (x, y) (combine lels rels) -> Guard x y.
+  Hypothesis G_value : forall i lels j rels, Guard (NSeq i lels) (NSeq j rels) ->
+    list_mode am hm rels = LValue ->
+    unkeyed hm = true /\ forall x y, In x lels -> In y rels -> Guard x y.
+  Hypothesis G_key : forall i lels j rels d,
+    okd (NSeq i lels) -> okd (NSeq j rels) -> Guard (NSeq i lels) (NSeq j rels) ->
+    list_mode am hm rels = LKey d ->
+    c_keys cfg = [] /\ exists K, first_key rels = Some K /\ keyed_list K lels = true /\ keyed_list K rels = true /\
+      (d = true -> forall x y, In x lels -> In y rels -> same_id K x y = true -> Guard x y).
 
   Notation E := (equiv am hm).
 
   Definition rec_iff (rec : rec_t) : Prop :=
     forall path q l r par pref a a',
-      okd l -> okd r -> rec path q l r par pref a = Ok a' -> SD a' = SD a || negb (E l r).
+      okd l -> okd r -> Guard l r -> rec path q l r par pref a = Ok a' -> SD a' = SD a || negb (E l r).
 
   (* ---- mappings ---- *)
   Definition gshared (lkvs : list (node * node)) (kv' : node * node) : bool :=
@@ -255,12 +320,13 @@ Section Iff.
   Qed.
 
   Lemma dicts_iff : forall rec path q i lkvs j rkvs a a',
-    rec_iff rec -> okd (NMap i lkvs) -> okd (NMap j rkvs) ->
+    rec_iff rec -> okd (NMap i lkvs) -> okd (NMap j rkvs) -> Guard (NMap i lkvs) (NMap j rkvs) ->
     diff_dicts rec path q (NMap i lkvs) (NMap j rkvs) lkvs rkvs a = Ok a' ->
     SD a' = SD a || negb (E (NMap i lkvs) (NMap j rkvs)).
   Proof.
-    intros rec path q i lkvs j rkvs a a' Hrec OL OR H.
+    intros rec path q i lkvs j rkvs a a' Hrec OL OR HG H.
     rewrite (dict_equiv_iff _ _ _ _ OL OR). cbv zeta. rewrite negb_involutive.
+    pose proof OL as OL0. pose proof OR as OR0.
     pose proof (okd_tag _ OL) as Ti. pose proof (okd_tag _ OR) as Tj. simpl in Ti, Tj.
     destruct OL as [HwL HuL]. destruct OR as [HwR HuR].
     destruct (wf_map_inv _ _ HwL) as [Lp [Ln Lw]].
@@ -280,9 +346,10 @@ Section Iff.
       { rewrite (map_has_hask _ _ Rp Pk). apply (hask_in kkey rkvs (k, rv) Hin). }
       destruct (map_get k lkvs) as [lv|] eqn:Eg.
       + rewrite Hhas in Hstep. destruct (map_get_in _ _ _ Eg) as [kn Hkn].
-        eapply Hrec; [ | | exact Hstep].
+        eapply Hrec; [ | | | exact Hstep].
         * apply (okd_child (NMap i lkvs)); [split; auto|]. simpl. apply in_map_iff. exists (kn, lv). auto.
         * apply (okd_child (NMap j rkvs)); [split; auto|]. simpl. apply in_map_iff. exists (k, rv). auto.
+        * eapply (G_map i lkvs j rkvs k rv lv); eauto.
       + inversion Hstep; subst. rewrite orb_false_r. reflexivity.
   Qed.
 
@@ -378,7 +445,7 @@ Section Iff.
         rewrite Hself in Hstep.
         pose proof (set_find_in _ _ E1) as Hm.
         assert (Pm : plain_leaf (set_find k lels) = true) by (rewrite forallb_forall in Lp; auto).
-        rewrite (Hrec _ _ _ _ _ _ _ _ (plain_okd _ Pm) (plain_okd _ Pk) Hstep).
+        rewrite (Hrec _ _ _ _ _ _ _ _ (plain_okd _ Pm) (plain_okd _ Pk) (G_leaf _ _ Pm Pk) Hstep).
         rewrite leaves_equiv; auto; [rewrite orb_false_r; reflexivity|].
         rewrite (set_find_findk _ _ Lp Pk).
         rewrite (set_has_hask _ _ Lp Pk), hask_findk in E1.
@@ -392,21 +459,26 @@ Section Iff.
     rec_iff rec ->
     forall lels idx rels a a',
       (forall x, In x lels -> okd x) -> (forall y, In y rels -> okd y) ->
+      (deep = true -> forall x y, In (x, y) (combine lels rels) -> Guard x y) ->
       zip_go rec deep path q r0 idx lels rels a = Ok a' ->
       SD a' = SD a || negb (forall2b (if deep then E else data_eq) lels rels).
   Proof.
     intros rec deep path q r0 Hrec.
-    induction lels as [|le lr IH]; simpl; intros idx rels a a' OL OR H.
+    induction lels as [|le lr IH]; simpl; intros idx rels a a' OL OR HG H.
     - inversion H; subst. rewrite SD_news by (intros; reflexivity).
       destruct rels; simpl; [rewrite orb_false_r; reflexivity | rewrite orb_true_r; reflexivity].
     - destruct rels as [|re rr].
-      + rewrite (IH (S idx) [] _ _ (fun x Hx => OL x (or_intror Hx)) OR H).
+      + assert (HG0 : deep = true -> forall x y, In (x, y) (combine lr []) -> Guard x y).
+        { intros _ x y Hxy. rewrite combine_nil in Hxy. contradiction. }
+        rewrite (IH (S idx) [] _ _ (fun x Hx => OL x (or_intror Hx)) OR HG0 H).
         rewrite SD_cons. simpl. rewrite orb_true_r. reflexivity.
       + match type of H with (bind ?F _ = _) => destruct F as [a1| |] eqn:EF end; simpl in H; try discriminate.
-        rewrite (IH (S idx) rr _ _ (fun x Hx => OL x (or_intror Hx)) (fun x Hx => OR x (or_intror Hx)) H).
+        rewrite (IH (S idx) rr _ _ (fun x Hx => OL x (or_intror Hx)) (fun x Hx => OR x (or_intror Hx))
+                    (fun Hd x y Hxy => HG Hd x y (or_intror Hxy)) H).
         assert (St : SD a1 = SD a || negb ((if deep then E else data_eq) le re)).
         { destruct deep.
-          - eapply Hrec; [ | | exact EF]; [apply OL | apply OR]; left; reflexivity.
+          - eapply Hrec; [ | | | exact EF]; [apply OL; left; reflexivity | apply OR; left; reflexivity |].
+            apply (HG eq_refl). left; reflexivity.
           - inversion EF; subst. rewrite SD_cons. unfold cmp_entry, nonsame. simpl.
             rewrite <- (okd_eq le re (OL le (or_introl eq_refl)) (OR re (or_introl eq_refl))).
             destruct (node_eq le re); simpl; rewrite ?orb_false_r, ?orb_true_r; reflexivity. }
@@ -415,12 +487,13 @@ Section Iff.
 
   (* ---- sequences: the value-synchronised comparer ---- *)
   Lemma synced_iff : forall rec path q r0 lels rels a a',
-    rec_iff rec ->
+    rec_iff rec -> unkeyed hm = true ->
     (forall x, In x lels -> okd x) -> (forall y, In y rels -> okd y) ->
+    (forall x y, In x lels -> In y rels -> Guard x y) ->
     diff_synced path_eq rec path q r0 lels rels a = Ok a' ->
     SD a' = SD a || negb (bag_eqb data_eq lels rels).
   Proof.
-    intros rec path q r0 lels rels a a' Hrec OL OR H. unfold diff_synced in H.
+    intros rec path q r0 lels rels a a' Hrec Hk OL OR HG H. unfold diff_synced in H.
     destruct (sync_value_accounting lels rels) as [El Pr].
     assert (FS := fun Hs => fold_SD _ (fun p => negb (matched p)) (sync_value lels rels) a a' Hs H).
     rewrite FS; clear FS.
@@ -435,7 +508,7 @@ Section Iff.
       destruct lidx as [li|].
       + destruct ridx as [ri|].
         * destruct (pair_elems _ _ _ _ _ _ _ El Pr Hin) as [I1 I2].
-          rewrite (Hrec _ _ _ _ _ _ _ _ (OL _ I1) (OR _ I2) Hstep). simpl.
+          rewrite (Hrec _ _ _ _ _ _ _ _ (OL _ I1) (OR _ I2) (HG _ _ I1 I2) Hstep). simpl.
           pose proof (sync_value_go_matched _ _ _ _ _ _ Hin) as M.
           rewrite (okd_eq _ _ (OR _ I2) (OL _ I1)) in M.
           destruct (OL _ I1) as [W1 _]. destruct (OR _ I2) as [W2 _].
@@ -447,26 +520,137 @@ Section Iff.
         * rewrite SD_cons. simpl. rewrite orb_true_r. reflexivity.
   Qed.
 
+  (* ---- sequences: the identity-key comparer ---- *)
+  Definition kbad (d : bool) (p : spair) : bool :=
+    match p with
+    | (Some _, le, Some _, re) => negb (if d then E le re else data_eq le re)
+    | _ => true
+    end.
+
+  Lemma keyed_iff : forall rec d path q i lels j rels a a',
+    rec_iff rec -> okd (NSeq i lels) -> okd (NSeq j rels) -> Guard (NSeq i lels) (NSeq j rels) ->
+    list_mode am hm rels = LKey d ->
+    foldM (key_fold rec d path q (NSeq j rels)) (sync_key cfg (NSeq j rels) lels rels) a = Ok a' ->
+    SD a' = SD a || negb (keyed_eqb am hm d lels rels).
+  Proof.
+    intros rec d path q i lels j rels a a' Hrec OL OR HG HM H.
+    assert (CL : forall x, In x lels -> okd x) by (intros x Hx; apply (okd_child _ _ OL); exact Hx).
+    assert (CR : forall y, In y rels -> okd y) by (intros y Hy; apply (okd_child _ _ OR); exact Hy).
+    destruct (G_key _ _ _ _ _ OL OR HG HM) as [Hc [K [FK [KL [KR GD]]]]].
+    set (idf := id_or_none K).
+    apply andb_true_iff in KL. destruct KL as [KLs KLn]. apply andb_true_iff in KR. destruct KR as [KRs KRn].
+    assert (IdL : forall x, In x lels -> id_val K x = Some (idf x)).
+    { intros x Hx. rewrite forallb_forall in KLs. specialize (KLs x Hx). unfold idf, id_or_none.
+      destruct (id_val K x); [reflexivity | discriminate]. }
+    assert (IdR : forall y, In y rels -> id_val K y = Some (idf y)).
+    { intros y Hy. rewrite forallb_forall in KRs. specialize (KRs y Hy). unfold idf, id_or_none.
+      destruct (id_val K y); [reflexivity | discriminate]. }
+    assert (SI : forall x y, In x lels -> In y rels -> same_id K x y = py_eq (idf x) (idf y)).
+    { intros x y Hx Hy. unfold same_id. rewrite (IdL x Hx), (IdR y Hy). reflexivity. }
+    (* the synchroniser is the plain match-by-identity *)
+    destruct (sync_key_accounting cfg (NSeq j rels) lels rels) as [El Pr].
+    assert (Hps : sync_key cfg (NSeq j rels) lels rels = ksync idf (enumerate lels) (enumerate rels)).
+    { unfold first_key in FK. destruct rels as [|[|i0 [|[k0 v0] kvs0]| |] rr]; try discriminate FK.
+      inversion FK; subst K.
+      assert (Pk0 : plain_leaf k0 = true).
+      { destruct (CR (NMap i0 ((k0, v0) :: kvs0)) (or_introl eq_refl)) as [W _].
+        destruct (wf_map_inv _ _ W) as [Kp _]. simpl in Kp. apply andb_true_iff in Kp. tauto. }
+      unfold sync_key. rewrite (aoh_diff_key_nokeys _ _ _ _ Hc). simpl fst.
+      apply sync_key_go_ksync; auto.
+      - intros p Hp. destruct p as [n x]. apply enumerate_nth in Hp. apply nth_error_In in Hp. simpl.
+        destruct (CL x Hp) as [W U]. repeat split; auto.
+      - intros p Hp. destruct p as [n y]. apply enumerate_nth in Hp. apply nth_error_In in Hp. simpl.
+        destruct (CR y Hp) as [W U]. repeat split; auto. }
+    rewrite Hps in H, El, Pr.
+    set (ps := ksync idf (enumerate lels) (enumerate rels)) in *.
+    assert (Sh : forall p, In p ps -> shape idf (enumerate lels) (enumerate rels) p).
+    { apply ksync_shape; rewrite map_ida_enumerate; assumption. }
+    rewrite (fold_SD (key_fold rec d path q (NSeq j rels)) (kbad d) ps a a'); [ | | exact H].
+    - f_equal. unfold keyed_eqb. rewrite FK.
+      match goal with |- _ = negb ?X => destruct X eqn:EE end; cbn [negb].
+      + (* equivalent: every tuple is a matched, equivalent pair *)
+        apply andb_true_iff in EE. destruct EE as [Len F]. apply Nat.eqb_eq in Len. rewrite forallb_forall in F.
+        assert (Part : forall x, In x lels -> exists y, In y rels /\ py_eq (idf x) (idf y) = true /\
+                        (if d then E x y else data_eq x y) = true).
+        { intros x Hx. specialize (F x Hx). apply existsb_exists in F. destruct F as [y [Hy X]].
+          apply andb_true_iff in X. destruct X as [X1 X2]. rewrite (SI x y Hx Hy) in X1. exists y. auto. }
+        apply not_true_is_false. intros Hex. apply existsb_exists in Hex. destruct Hex as [p [Hp Bp]].
+        destruct (Sh p Hp) as [li le ri re H1 H2 H3|li le H1 H2|ri re H1 H2].
+        * apply enumerate_nth in H1. apply nth_error_In in H1.
+          pose proof H2 as H2'. apply enumerate_nth in H2'. apply nth_error_In in H2'.
+          destruct (Part le H1) as [y [Hy [Ey Oy]]].
+          assert (y = re).
+          { apply (keyed_uniq idf rels y re KRn Hy H2').
+            eapply py_eq_trans; [apply py_eq_sym; exact Ey | apply py_eq_sym; exact H3]. }
+          subst y. simpl in Bp. rewrite Oy in Bp. discriminate.
+        * apply enumerate_nth in H1. apply nth_error_In in H1.
+          destruct (Part le H1) as [y [Hy [Ey _]]]. destruct (in_enumerate _ _ Hy) as [n Hn].
+          assert (hask (ida idf) (idf le) (enumerate rels) = true).
+          { unfold hask. apply existsb_exists. exists (n, y). split; auto. unfold ida. simpl. apply py_eq_sym; exact Ey. }
+          congruence.
+        * pose proof H1 as H1'. apply enumerate_nth in H1'. apply nth_error_In in H1'.
+          destruct (keyed_sym idf idf (fun _ _ => True) lels rels KLn KRn Len) with (b := re) as [x [Hx [Ex _]]]; auto.
+          { intros x Hx. destruct (Part x Hx) as [y [Hy [Ey _]]]. exists y. auto. }
+          destruct (in_enumerate _ _ Hx) as [n Hn].
+          assert (hask (ida idf) (idf re) (enumerate lels) = true).
+          { unfold hask. apply existsb_exists. exists (n, x). split; auto. }
+          congruence.
+      + (* not equivalent: otherwise the tuples rebuild the equivalence *)
+        destruct (existsb (kbad d) ps) eqn:X; auto. exfalso.
+        pose proof (existsb_false_in _ _ X) as Gd.
+        assert (Mt : forall p, In p ps -> matched p = true).
+        { intros p Hp. specialize (Gd p Hp). destruct p as [[[[n|] x] [m|]] y]; simpl in Gd; try discriminate; reflexivity. }
+        destruct (matched_lengths ps Mt) as [L1 L2].
+        assert (Len : List.length lels = List.length rels).
+        { rewrite El in L1. pose proof (Permutation_length Pr) as L3.
+          unfold enumerate in L1, L3. rewrite enumerate_from_length in L1, L3. lia. }
+        assert (T : Nat.eqb (List.length lels) (List.length rels) &&
+                    forallb (fun x => existsb (fun y => same_id K x y && (if d then E x y else data_eq x y)) rels) lels = true).
+        { apply andb_true_iff. split; [apply Nat.eqb_eq; exact Len|].
+          apply forallb_forall. intros x Hx. destruct (in_enumerate _ _ Hx) as [n Hn].
+          rewrite <- El in Hn. destruct (in_lefts_inv _ _ _ Hn) as [ri [re Hp]].
+          pose proof (Gd _ Hp) as Bp. pose proof (Mt _ Hp) as Mp.
+          destruct ri as [m|]; try discriminate Mp. simpl in Bp. apply negb_false_iff in Bp.
+          pose proof (Sh _ Hp) as S1. inversion S1; subst; clear S1.
+          match goal with H2 : In (m, re) (enumerate rels), H3 : py_eq (idf re) (idf x) = true |- _ =>
+            apply enumerate_nth in H2; apply nth_error_In in H2;
+            apply existsb_exists; exists re; split; auto;
+            rewrite (SI x re Hx H2), Bp, andb_true_r; apply py_eq_sym; exact H3 end. }
+        congruence.
+    - intros b p b' Hin Hstep. pose proof (Sh p Hin) as S0.
+      destruct S0 as [li le ri re H1 H2 H3|li le H1 H2|ri re H1 H2]; simpl in Hstep; unfold kbad.
+      + apply enumerate_nth in H1. apply nth_error_In in H1. apply enumerate_nth in H2. apply nth_error_In in H2.
+        destruct d.
+        * eapply Hrec; [apply CL; exact H1 | apply CR; exact H2 | | exact Hstep].
+          apply (GD eq_refl); auto. rewrite (SI le re H1 H2). apply py_eq_sym. exact H3.
+        * inversion Hstep; subst. rewrite SD_cons. unfold cmp_entry, nonsame. cbn [e_action].
+          rewrite <- (okd_eq le re (CL _ H1) (CR _ H2)).
+          destruct (node_eq le re); cbn [negb orb]; rewrite ?orb_false_r, ?orb_true_r; reflexivity.
+      + inversion Hstep; subst. rewrite SD_cons. simpl. rewrite orb_true_r. reflexivity.
+      + inversion Hstep; subst. rewrite SD_cons. simpl. rewrite orb_true_r. reflexivity.
+  Qed.
+
   Lemma lists_iff : forall rec path q i lels j rels par pref a a',
-    rec_iff rec -> okd (NSeq i lels) -> okd (NSeq j rels) ->
+    rec_iff rec -> okd (NSeq i lels) -> okd (NSeq j rels) -> Guard (NSeq i lels) (NSeq j rels) ->
     diff_lists path_eq cfg rec path q (NSeq j rels) lels rels par pref a = Ok a' ->
     SD a' = SD a || negb (E (NSeq i lels) (NSeq j rels)).
   Proof.
-    intros rec path q i lels j rels par pref a a' Hrec OL OR H.
+    intros rec path q i lels j rels par pref a a' Hrec OL OR HG H.
     pose proof (okd_tag _ OL) as Ti. pose proof (okd_tag _ OR) as Tj. simpl in Ti, Tj.
     assert (CL : forall x, In x lels -> okd x) by (intros x Hx; apply (okd_child _ _ OL); exact Hx).
     assert (CR : forall y, In y rels -> okd y) by (intros y Hy; apply (okd_child _ _ OR); exact Hy).
     rewrite equiv_seq, Ti, Tj. change (tag_eqb None None) with true. rewrite andb_true_l.
-    rewrite (lists_dispatch _ _ _ _ _ _ _ _ _ _ _ _ _ Hu Hk) in H.
-    destruct (list_mode am hm rels) as [[[|]|]|]; try discriminate.
-    - eapply (zip_iff rec true); eassumption.
-    - eapply (zip_iff rec false); eassumption.
-    - eapply synced_iff; eassumption.
+    rewrite (lists_dispatch _ _ _ _ _ _ _ _ _ _ _ _ _ Hu) in H.
+    destruct (list_mode am hm rels) as [[|]| |d] eqn:M.
+    - eapply (zip_iff rec true); try eassumption. intros _. eapply G_zip; eauto.
+    - eapply (zip_iff rec false); try eassumption. intros X; discriminate X.
+    - destruct (G_value _ _ _ _ HG M) as [Hk HGv]. eapply synced_iff; eassumption.
+    - eapply keyed_iff; eassumption.
   Qed.
 
   Lemma body_iff : forall rec, rec_iff rec -> rec_iff (diff_body path_eq cfg rec).
   Proof.
-    intros rec Hrec path q l r par pref a a' OL OR H.
+    intros rec Hrec path q l r par pref a a' OL OR HG H.
     destruct l as [i v|i lkvs|i lels|i lels], r as [j w|j rkvs|j rels|j rels];
       try (match type of H with diff_body _ _ _ _ _ ?l ?r _ _ _ = Ok _ =>
              rewrite (clash_SD path q l r a a' H) end; simpl; rewrite orb_true_r; reflexivity);
@@ -483,20 +667,33 @@ Section Iff.
   Lemma between_iff : forall fuel, rec_iff (diff_between path_eq cfg fuel).
   Proof.
     induction fuel as [|f IH].
-    - intros path q l r par pref a a' _ _ H. simpl in H. discriminate.
-    - intros path q l r par pref a a' OL OR H. simpl in H. eapply body_iff; eauto.
+    - intros path q l r par pref a a' _ _ _ H. simpl in H. discriminate.
+    - intros path q l r par pref a a' OL OR HG H. simpl in H. eapply body_iff; eauto.
   Qed.
 
-  Theorem compare_to_iff : forall L R es,
-    wf_doc L = true -> wf_doc R = true -> untagged L = true -> untagged R = true ->
+  Theorem compare_to_iff_G : forall L R es,
+    wf_doc L = true -> wf_doc R = true -> untagged L = true -> untagged R = true -> Guard L R ->
     compare_to path_eq cfg L R = Ok es -> shows_difference es = negb (equiv am hm L R).
   Proof.
-    intros L R es HwL HwR HuL HuR H. unfold compare_to in H.
+    intros L R es HwL HwR HuL HuR HG H. unfold compare_to in H.
     match type of H with (bind ?F _ = _) => destruct F as [acc| |] eqn:EF end; simpl in H; try discriminate.
     inversion H; subst. rewrite SD_rev.
-    rewrite (between_iff _ _ _ _ _ _ _ _ _ (conj HwL HuL) (conj HwR HuR) EF). reflexivity.
+    rewrite (between_iff _ _ _ _ _ _ _ _ _ (conj HwL HuL) (conj HwR HuR) HG EF). reflexivity.
   Qed.
 End Iff.
+
+(* ---- the position / value modes: no guard ---- *)
+Theorem compare_to_iff : forall path_eq cfg am hm,
+  uniform cfg am hm -> unkeyed hm = true ->
+  forall L R es,
+    wf_doc L = true -> wf_doc R = true -> untagged L = true -> untagged R = true ->
+    compare_to path_eq cfg L R = Ok es -> shows_difference es = negb (equiv am hm L R).
+Proof.
+  intros path_eq cfg am hm Hu Hk L R es HwL HwR HuL HuR H.
+  apply (compare_to_iff_G path_eq cfg am hm Hu (fun _ _ => True)); auto.
+  - intros i lels j rels d _ _ _ M. exfalso. exact (list_mode_unkeyed _ _ _ _ Hk M).
+Qed.
+
 
 (* ---- data equality is reflexive (no hypothesis needed) ---- *)
 Lemma tag_eqb_refl : forall t, tag_eqb t t = true.
